@@ -3,7 +3,9 @@ use crate::engine::{Check, Ctx};
 use serde_json::Value;
 
 pub mod c01;
+pub mod c02;
 pub mod c03;
+pub mod c14;
 
 pub struct PropMeta {
     pub level: &'static str,
@@ -14,19 +16,23 @@ pub struct PropMeta {
 pub fn meta(prop: &str) -> PropMeta {
     match prop {
         "C01" => c01::META,
+        "C02" => c02::META,
         "C03" => c03::META,
+        "C14" => c14::META,
         _ => PropMeta { level: "exploration", rule: "", assumptions: &[] },
     }
 }
 
 pub fn known(prop: &str) -> bool {
-    matches!(prop, "C01" | "C03")
+    matches!(prop, "C01" | "C02" | "C03" | "C14")
 }
 
 pub fn run(ctx: &mut Ctx) {
     match ctx.prop.clone().as_str() {
         "C01" => c01::run(ctx),
+        "C02" => c02::run(ctx),
         "C03" => c03::run(ctx),
+        "C14" => c14::run(ctx),
         p => panic!("unknown property {}", p),
     }
 }
@@ -35,7 +41,9 @@ pub fn run(ctx: &mut Ctx) {
 pub fn replay(ctx: &mut Ctx, stage: &str, case: &Value) -> Check {
     match ctx.prop.clone().as_str() {
         "C01" => c01::replay(ctx, stage, case),
+        "C02" => c02::replay(ctx, stage, case),
         "C03" => c03::replay(ctx, stage, case),
+        "C14" => c14::replay(ctx, stage, case),
         p => panic!("unknown property {}", p),
     }
 }
